@@ -22,10 +22,15 @@ type DevPort struct {
 	SilentAfter int               // if >= 0: stop answering Get commands after this many answered Gets
 	DieMidFrame bool              // with SilentAfter: the first unanswered Get still gets the first bytes of its answer
 	OnGet       func(addr uint16) // hook called for every Get frame received (e.g. to cancel a context)
+	AsyncEvery  int               // if > 0: every AsyncEvery-th answered Get is preceded by an asynchronous ":A..." frame
+	LatencyMs   int               // the pty simulator waits that long before it sends an answer
+	FlushErr    error             // if set, Flush() discards the input as usual but reports this error
+	Pending     []byte            // bytes already received (unread) when the driver is created
 	queue       []byte
 	Frames      [][]byte // every frame written by the driver
 	Gets        []uint16 // address of every Get frame received, in order
 	answered    int
+	reads       int
 	Closed      bool
 }
 
@@ -62,6 +67,9 @@ func (d *DevPort) Write(b []byte) (int, error) {
 			}
 			if a, ok := d.Regs[addr]; ok && (d.SilentAfter < 0 || d.answered < d.SilentAfter) {
 				d.answered++
+				if d.AsyncEvery > 0 && d.answered%d.AsyncEvery == 0 {
+					d.queue = append(d.queue, simFrame(0xA, []byte{0x8D, 0xED, 0x00, byte(d.answered), 0x05})...)
+				}
 				if raw, isRaw := d.RawRegs[addr]; isRaw {
 					d.queue = append(d.queue, raw...)
 				} else {
@@ -78,6 +86,14 @@ func (d *DevPort) Write(b []byte) (int, error) {
 }
 
 func (d *DevPort) Read(b []byte) (int, error) {
+	d.reads++
+	if d.reads > 50*opBudget {
+		panic(budgetExceeded{}) // a call that keeps reading from a silent device is looping
+	}
+	if d.Pending != nil {
+		d.queue = append(append([]byte(nil), d.Pending...), d.queue...)
+		d.Pending = nil
+	}
 	if len(d.queue) == 0 {
 		return 0, io.EOF
 	}
@@ -86,5 +102,5 @@ func (d *DevPort) Read(b []byte) (int, error) {
 	return n, nil
 }
 
-func (d *DevPort) Flush() error { d.queue = nil; return nil }
+func (d *DevPort) Flush() error { d.queue = nil; d.Pending = nil; return d.FlushErr }
 func (d *DevPort) Close() error { d.Closed = true; return nil }
